@@ -158,6 +158,7 @@ Section Closed.
     - cbn [subs_expr In] in H0. destruct H0 as [E|H0]; [self|]. cbn [ast_expr]. apply H in H0. apply RL_one in H0. via H0.
     - cbn [subs_expr In] in H0. destruct H0 as [E|H0]; [self|]. cbn [ast_expr]. apply H in H0. apply RL_one in H0. via H0.
     - cbn [subs_expr In] in H0. destruct H0 as [E|H0]; [self|]. cbn [ast_expr]. apply H in H0. apply RL_one in H0. via H0.
+    - cbn in H. destruct H as [H|[]]. self.
     (* mexprs *)
     - destruct H.
     - cbn [subs_exprs] in H1. split_in H1. cbn [ast_exprs].
@@ -222,7 +223,7 @@ Section Closed.
       + apply H in H6. apply RL_wrap_with in H6. via H6.
       + apply H0 in H6. via H6.
       + apply H1 in H6. via H6.
-      + apply (H2 (match ast_trefs from with f :: _ => [f] | [] => [] end) 0%nat x) in H6. via H6.
+      + apply (H2 (join_left (ast_trefs from)) 0%nat x) in H6. via H6.
       + apply H3 in H6. via H6.
       + apply H4 in H6. via H6.
       + apply H5 in H6. via H6.
